@@ -2,7 +2,7 @@
 import os
 import vbuild
 
-NX_COMMON = ["src/common/simfs.cc", "src/nx/simproc.cc", "src/nx/nxmain.cc"]
+NX_COMMON = ["src/common/simfs.cc", "src/nx/simcmd.cc", "src/nx/simproc.cc", "src/nx/nxmain.cc"]
 NX_DEPS = ["src/common/simfs.h", "src/nx/nx.h", "src/common/ixutil.h"]
 HFLAGS = ["-O2", "-std=c++17", "-w", "-DNDEBUG", "-DUSE_PPOLL=1", "-fno-access-control",
           "-D" + vbuild.GUARD + "=1"]
